@@ -129,7 +129,7 @@ Error RAStackAllocator::calculate_stack_frame() noexcept {
 
     {
       uint32_t slot_size = slot->size();
-      if (slot_size < (1u << uint32_t(ASMJIT_ARRAY_SIZE(gaps)))) {
+      if (slot_size != 0u && slot_size < (1u << uint32_t(ASMJIT_ARRAY_SIZE(gaps)))) {
         // Iterate from the lowest to the highest possible.
         uint32_t index = Support::ctz(slot_size);
         do {
